@@ -378,6 +378,14 @@ class SchemaValidator:
                 continue
 
             imlemented_types.add(interface.name)
+
+            if not isinstance(interface, InterfaceType):
+                self.add_error(
+                    'Type "%s" can only implement interface types, it cannot '
+                    'implement "%s"' % (type_, interface)
+                )
+                continue
+
             self.validate_implementation(type_, interface)
 
     def validate_implementation(
